@@ -235,7 +235,7 @@ PROPS = {
         "coq": ["Props/C15.v"],
         "level": "proof",
         "harness": ["gwrun", "purediff"],
-        "stages": [("pure", stage_pure, {"suites": ["ressub", "lcs", "throttle", "valuedec"], "n_quick": 3000, "n_thorough": 60000}),
+        "stages": [("pure", stage_pure, {"suites": ["ressub", "lcs", "throttle", "valuedec", "respdec"], "n_quick": 3000, "n_thorough": 60000}),
                    ("gw", stage_gw, {"profiles": [("malformed", 1500, 10000), ("churn", 600, 4000), ("query", 500, 3000)],
                                      "monitor_props": ("C15", "C01", "C02", "C03", "C07")}),
                    # unrestricted reference graphs and no trigger avoidance: process death and stalls (and the C15 monitor) only;
